@@ -13,8 +13,10 @@ from .evutil import BASE, dt, us_of_dt, us_of_td, ev_unwire, ev_view, ev_wire, m
 
 RULE = ("Timeslot methods on every pair of slots of a 0..4 grid (negative durations included); "
         "filter_period_intersect and period_union on interval placements of a 0..6 grid (zero-length, "
-        "touching, nested, identical, one spanning many; all 1x1 placements always, <=2 and <=3 events a "
-        "side sampled in quick and exhaustive in thorough), then seeded random lists of 0..8 events "
+        "touching, nested, identical, one spanning many; all 1x1 placements always; <=2 and <=3 events a "
+        "side sampled in quick; thorough: exhaustive <=2 vs <=2 chains on 0..6, 3 vs <=1 on 0..6, 3 vs 2 on 0..4, "
+        "union <=2 vs <=2 arbitrary on 0..5 and 3 vs <=1 on 0..4, plus 400k+300k sampled <=3-vs-<=3), then "
+        "seeded random lists of 0..8 events "
         "(chains with sub-millisecond durations, shuffled; overlapping lists; a stream with unaligned "
         "timestamps written past the setter); non-trivial = distinct canonical case with at least one "
         "positively overlapping pair (intersection) or at least one merge (union)")
@@ -87,28 +89,44 @@ def gen_grid(rng, tier):
     any3 = lists_upto(iv4, 3)                           # arbitrary lists <=3 on 0..4
     any2_4 = lists_upto(iv4, 2)
     wide3 = [t for t in lists_upto(grid_intervals(5), 3) if wide_ok(t) and not chain_ok(t)]   # zero-length inside/at start of a positive one
-    for _ in range(300000 if tier == "thorough" else 2000):
+    for _ in range(150000 if tier == "thorough" else 2000):
         a, b = rng.choice(wide3), rng.choice(wide3 if rng.random() < 0.5 else chains3)
         if rng.random() < 0.5:
             a, b = b, a
         yield ("isect", mk_specs(a, 1000, 1), mk_specs(b, 1000, 2))
     if tier == "thorough":
+        # exhaustive: <=2 vs <=2 chains on 0..6; 3 vs <=1 on 0..6 (both roles); 3 vs 2 chains on 0..4
+        # (both roles); then 400k sampled 3-vs-<=3 placements on 0..6
         chains2 = [c for c in chains3 if len(c) <= 2]
-        for a in chains3:
+        chains1 = [c for c in chains3 if len(c) <= 1]
+        c3 = [c for c in chains3 if len(c) == 3]
+        for a in chains2:
             for b in chains2:
                 yield ("isect", mk_specs(a, 1000, 1), mk_specs(b, 1000, 2))
-                if len(a) == 3:
+        for a in c3:
+            for b in chains1:
+                yield ("isect", mk_specs(a, 1000, 1), mk_specs(b, 1000, 2))
+                yield ("isect", mk_specs(b, 1000, 1), mk_specs(a, 1000, 2))
+        chains3_4 = lists_upto(iv4, 3, only_chains=True)
+        for a in chains3_4:
+            for b in chains3_4:
+                if len(a) == 3 and len(b) == 2:
+                    yield ("isect", mk_specs(a, 1000, 1), mk_specs(b, 1000, 2))
                     yield ("isect", mk_specs(b, 1000, 1), mk_specs(a, 1000, 2))
-        c3 = [c for c in chains3 if len(c) == 3]
-        for _ in range(300000):
-            yield ("isect", mk_specs(rng.choice(c3), 1000, 1), mk_specs(rng.choice(c3), 1000, 2))
-        for a in any2:
-            for b in any2:
+        for _ in range(400000):
+            yield ("isect", mk_specs(rng.choice(c3), 1000, 1), mk_specs(rng.choice(chains3), 1000, 2))
+        # union: exhaustive <=2 vs <=2 arbitrary lists on 0..5, 3 vs <=1 on 0..4, then sampled <=3 vs <=3
+        any2_5 = lists_upto(grid_intervals(5), 2)
+        for a in any2_5:
+            for b in any2_5:
                 yield ("union", mk_specs(a, 1000, 1), mk_specs(b, 1000, 2))
         for a in any3:
-            for b in any2_4:
-                if len(a) == 3:
-                    yield ("union", mk_specs(a, 1000, 1), mk_specs(b, 1000, 2))
+            if len(a) == 3:
+                for b in any2_4:
+                    if len(b) <= 1:
+                        yield ("union", mk_specs(a, 1000, 1), mk_specs(b, 1000, 2))
+        for _ in range(300000):
+            yield ("union", mk_specs(rng.choice(any3), 1000, 1), mk_specs(rng.choice(any3), 1000, 2))
         for _ in range(200000):
             yield ("isect", mk_specs(rng.choice(any2), 1000, 1), mk_specs(rng.choice(any2), 1000, 2))
     else:
@@ -407,7 +425,7 @@ def main(argv=None):
             checks.append(("timeslot", f"Timeslot method {tag} on {args}", exp, {"case": wire[-1], "impl": exp}))
 
     # ---- the two transforms
-    n_rand = 2500 if ck.tier == "quick" else 150000
+    n_rand = 2500 if ck.tier == "quick" else 100000
     cases = itertools.chain(gen_grid(ck.rng, ck.tier), gen_random(ck.rng, n_rand))
     branch_rows = []
     for case in cases:
